@@ -37,6 +37,7 @@ def run(ctx):
         ctx.guard("C07", "casts", lambda: casts.census(ctx, prog, scope='hash_dual::', floor=3))
         ctx.guard("C07", "parse-forms", lambda: parser.entry_forms(ctx, prog))
         ctx.guard("C07", "summaries", lambda: summary.check(ctx, prog, 'hash_dual::', floor=10))
+        ctx.guard("C07", "generic consts", lambda: summary.check_consts(ctx, prog, floor=13))
         ctx.guard("C07", "path summaries", lambda: summary.check_paths(ctx, prog, 'hash_dual::', floor=4))
         if c in ("dbg", "unsafe_dbg", "strict_dbg"):
             ctx.guard("C07", "beliefs", lambda: beliefs.census(ctx, prog, beliefs.SCOPES["C07"][0], floor=beliefs.SCOPES["C07"][1]))
